@@ -9,21 +9,103 @@ GEN_FUNCS = []
 NEEDS_DRIVER = False
 LEVEL_TEXT = ("Kernel-`decide`d theorems over the ordered host event lists of step / step1 / step2 / forward regenerated from forward.py (and everything it calls) on every run: for the Euler and the "
               "implicit configurations (sleeping off), `step1; step2` launches exactly the same kernels in the same order as `step`, except the inertia factor/solve kernels (factor in step1 + solve in "
-              "step2 vs the fused factor-solve), for ALL values of the other host conditions; `forward()` writes no integration-state field except d.history (delayed-sensor insertion). "
-              "On the real code: step1;step2 vs step and forward;forward are compared bit for bit, and the integration state before/after forward().")
-LEVEL_NOTE = ("C37_partial: equality of VALUES across the factor/solve difference rests on C21 (factor then solve = factor-solve) and is sampled here; with sleeping enabled forward() additionally runs "
-              "sleep.wake first (not covered by the property's statement). Trusted: Lean kernel, host-graph extractor (hostgraph.py).")
+              "step2 vs the fused factor-solve), for ALL values of the other host conditions; in step1;step2, forward and step every event that reads d.M without writing it (the factorisations, Newton's "
+              "Hessian, the implicit integrators) comes after ALL writers of the current recomputation of M (zeroing, crb, tendon armature), and no solve with d.qLD/d.qLDiagInv runs on a factor older than "
+              "the last write of d.M (`inertia_complete_before_use`, `inertia_factor_fresh_at_solve`); `forward()` writes no integration-state field except d.history (delayed-sensor insertion). "
+              "On the real code: step1;step2 vs step (state, and the accelerations/constraint forces left in Data) and forward;forward are compared, the integration state before/after forward(), and the "
+              "inertia factor left by step1() / forward() is multiplied back against d.M and MuJoCo C's M; Newton and CG, Data with and without constraint capacity (njmax=0), tendons with armature.")
+LEVEL_NOTE = ("C37_partial: equality of VALUES across the factor/solve difference rests on C21 (factor then solve = factor-solve) and is sampled here (tolerances scale with cond(M): the two roundings differ); "
+              "the ordering theorems read the event lists in list order and ignore host conditions (sound while the writers of d.M are unconditional, which the theorems' expected lists pin); with sleeping "
+              "enabled forward() additionally runs sleep.wake first (not covered by the property's statement). Trusted: Lean kernel, host-graph extractor (hostgraph.py).")
 ASSUMPTIONS = ["inputs are not changed between step1 and step2"]
+
+
+# deterministic rotation of the rare combinations (period 6): (solver, constraint capacity of the Data, tendons forced?)
+#   "cap":  Data allocated with room for constraint rows (contacts, limits: the solver iterates from d.M)
+#   "free": a model WITHOUT any constraint, put_data(nconmax=0, njmax=0): solver.solve copies qacc_smooth (= solve with the factor
+#           of M) straight into qacc, so the inertia FACTOR reaches the state
+ROTATION = (("Newton", "cap", True), ("CG", "cap", True), ("Newton", "free", True), ("CG", "cap", True), ("Newton", "cap", False), ("CG", "free", True))
+
+
+FACTOR_TOL = 2e-4  # backward error of a float32 Cholesky factor+solve, relative to |M||x| + |y| (observed on the unchanged tree: <= 7e-6)
+STATE_RTOL, STATE_ATOL, STATE_ROWTOL = 1e-5, 1e-6, 3e-6  # state after step vs step1;step2: elementwise + a share of the world's largest entry
+RATIO = [0.0, 0.0, 0.0]  # diagnostic: largest observed difference / tolerance of the last run (state, outputs, factor)
+OUT_TOL = 2e-4  # step vs step1;step2 accelerations/forces, relative to the largest entry of the row (floor; 2e-8 * cond(M) above cond 1e4)
+
+
+def _add_tendon_sites(wb, sp):
+  """a world site and a site in the body of the first joint, so that a spatial tendon whose length depends on qpos always exists"""
+  import re
+  if not sp.joint_types:
+    return wb, None
+  body = "b" + next(iter(sp.joint_types))[1:].split("_")[0]
+  wb2, n = re.subn(rf'(<body name="{body}"[^>]*>\n)', r'\1      <site name="c37_b" pos="0.11 0.06 0.09"/>\n', wb, count=1)
+  if n != 1:
+    return wb, None
+  return '    <site name="c37_w" pos="0.3 0.2 1.6"/>\n' + wb2, ("c37_w", "c37_b")
+
+
+def _rel(a, b):
+  """max |a-b| relative to the magnitude of the row (per world), float32-friendly"""
+  a, b = np.asarray(a, np.float64), np.asarray(b, np.float64)
+  if a.size == 0:
+    return 0.0
+  a, b = a.reshape(a.shape[0], -1), b.reshape(b.shape[0], -1)
+  return float(np.max(np.abs(a - b) / (1.0 + np.max(np.abs(a), axis=1, keepdims=True))))
+
+
+def _mj_fullM(mujoco, mjm, qpos):
+  mjd2 = mujoco.MjData(mjm)
+  mjd2.qpos[:] = qpos
+  mujoco.mj_forward(mjm, mjd2)
+  M = np.zeros((mjm.nv, mjm.nv))
+  mujoco.mj_fullM(mjm, mjd2, M)
+  return M
+
+
+def _factor_check(acc, mjw, wp, mujoco, m, d, mjm, mjd, rng, at_initial_state, what, xml):
+  """the inertia factor d.qLD/d.qLDiagInv that a position stage left in `d` must be the factor of the inertia matrix the rest of the
+  pipeline uses: x = solve_m(y) is multiplied back with (a) mjw's own d.M (mul_m) and (b) MuJoCo C's full M at the same qpos
+  (only valid at the initial state).  Tolerance: backward error of a float32 Cholesky, FACTOR_TOL * (|M||x| + |y|)."""
+  nv = mjm.nv
+  if nv == 0:
+    return
+  y = rng.normal(size=(d.nworld, nv)).astype(np.float32)
+  yw = wp.array(y, dtype=float)
+  xw = wp.zeros((d.nworld, nv), dtype=float)
+  rw = wp.zeros((d.nworld, nv), dtype=float)
+  mjw.solve_m(m, d, xw, yw)
+  mjw.mul_m(m, d, rw, xw)
+  x = xw.numpy().astype(np.float64)
+  M = _mj_fullM(mujoco, mjm, mjd.qpos)
+  acc.evals += 1
+  if not np.all(np.isfinite(x)):
+    acc.find(f"{what}: solve with the inertia factor is not finite", "forward.fwd_position", "factor-vs-M", xml=xml)
+    return
+  bound = FACTOR_TOL * (np.abs(x) @ np.abs(M).T + np.abs(y))
+  RATIO[2] = max(RATIO[2], float(np.max(np.abs(rw.numpy().astype(np.float64) - y) / bound)), float(np.max(np.abs(x @ M.T - y) / bound)) if at_initial_state else 0.0)
+  bad_own = np.abs(rw.numpy().astype(np.float64) - y) > bound
+  if bad_own.any():
+    acc.find(f"{what}: the inertia factor (d.qLD, d.qLDiagInv) is not the factor of d.M: |M solve_m(y) - y| = "
+             f"{np.abs(rw.numpy() - y).max():.3g} (bound {bound[bad_own].min():.3g})", "forward.fwd_position", "factor-vs-M", xml=xml)
+  elif at_initial_state:
+    bad_mj = np.abs(x @ M.T - y) > bound
+    if bad_mj.any():
+      acc.find(f"{what}: the inertia factor is not the factor of MuJoCo C's inertia matrix: |M_mj solve_m(y) - y| = {np.abs(x @ M.T - y).max():.3g}",
+               "forward.fwd_position", "factor-vs-mujoco-M", xml=xml)
 
 
 def _run(ctx, ncases):
   import mujoco
+  import warp as wp
   import mujoco_warp as mjw
   from harness.gen import models
   rng = np.random.default_rng(ctx.seed * 1000 + 37)
   acc = Acc()
   for c in range(ncases):
-    integ = str(rng.choice(["Euler", "implicitfast", "implicit"]))
+    solver, capacity, force_tendon = ROTATION[c % len(ROTATION)]
+    free = capacity == "free"
+    integ = ("Euler", "implicitfast", "implicit")[(c + c // 6) % 3] if force_tendon else str(rng.choice(["Euler", "implicitfast", "implicit"]))
     cone = ' cone="elliptic"' if rng.random() < 0.4 else ""
     jac = ' jacobian="sparse"' if rng.random() < 0.3 else ""
     delay = rng.random() < 0.3
@@ -34,15 +116,29 @@ def _run(ctx, ncases):
       extra = f'<actuator><motor joint="{hj[0]}"/><general joint="{hj[0]}" dyntype="filter" dynprm="0.05"/></actuator><sensor><jointpos joint="{hj[0]}"' + \
               (' delay="0.008" nsample="3"' if delay else "") + f'/><jointvel joint="{hj[0]}"/></sensor>'
     # tendons with damping/stiffness (spatial through two sites, fixed over scalar joints): their passive forces ACCUMULATE into
-    # qfrc_spring/qfrc_damper, which must be re-initialised by every forward() for every joint type (undamped ball joints included)
-    if len(sp.sites) >= 2 and rng.random() < 0.6:
-      a, b = rng.choice(len(sp.sites), size=2, replace=False)
-      extra += f'<tendon><spatial damping="{rng.uniform(0.5, 3):.2f}" stiffness="{rng.uniform(0, 5):.2f}"><site site="{sp.sites[a]}"/><site site="{sp.sites[b]}"/></spatial>'
+    # qfrc_spring/qfrc_damper, which must be re-initialised by every forward() for every joint type (undamped ball joints included).
+    # Forced cases also give them ARMATURE: the tendon inertia J^T a J is added to d.M by a stage of its own after crb, and every
+    # consumer of M (the factor of step1, the fused factor-solve of step/forward, Newton's Hessian, the implicit integrators) must see it.
+    sites = None
+    if force_tendon:
+      wb, sites = _add_tendon_sites(wb, sp)
+    if sites is None and len(sp.sites) >= 2 and rng.random() < 0.6:
+      sites = tuple(sp.sites[i] for i in rng.choice(len(sp.sites), size=2, replace=False))
+    arm = force_tendon and sites is not None
+    if sites is not None:
+      arm_s = f' armature="{rng.uniform(0.3, 2.0):.2f}"' if arm else ""
+      arm_f = f' armature="{rng.uniform(0.2, 1.0):.2f}"' if arm else ""
+      extra += f'<tendon><spatial damping="{rng.uniform(0.5, 3):.2f}" stiffness="{rng.uniform(0, 5):.2f}"{arm_s}><site site="{sites[0]}"/><site site="{sites[1]}"/></spatial>'
       if len(hj) >= 2:
-        extra += f'<fixed damping="0.7"><joint joint="{hj[0]}" coef="1"/><joint joint="{hj[1]}" coef="-0.5"/></fixed>'
+        extra += f'<fixed damping="0.7"{arm_f}><joint joint="{hj[0]}" coef="1"/><joint joint="{hj[1]}" coef="-0.5"/></fixed>'
+      elif len(hj) == 1 and arm:
+        extra += f'<fixed damping="0.7"{arm_f}><joint joint="{hj[0]}" coef="1"/></fixed>'
       extra += '</tendon>'
-    xml = models.wrap(wb, option=f'timestep="0.004" integrator="{integ}"' + cone + jac, extra=extra)
-    xml = xml.replace('type="hinge"', 'type="hinge" damping="0.2" limited="true" range="-1 1"')
+    xml = models.wrap(wb, option=f'timestep="0.004" integrator="{integ}" solver="{solver}"' + cone + jac, extra=extra, floor=not free)
+    if free:
+      xml = xml.replace('type="hinge"', 'type="hinge" damping="0.2"').replace("<geom ", '<geom contype="0" conaffinity="0" ')
+    else:
+      xml = xml.replace('type="hinge"', 'type="hinge" damping="0.2" limited="true" range="-1 1"')
     try:
       mjm = mujoco.MjModel.from_xml_string(xml)
     except ValueError:
@@ -55,26 +151,50 @@ def _run(ctx, ncases):
     mjd.ctrl[:] = rng.normal(size=mjm.nu)
     nworld = int(rng.integers(1, 3))
     m = mjw.put_model(mjm)
-    da = mjw.put_data(mjm, mjd, nworld=nworld, naconmax=150 * nworld, njmax=300)
-    db = mjw.put_data(mjm, mjd, nworld=nworld, naconmax=150 * nworld, njmax=300)
+    cap = dict(nconmax=0, njmax=0) if free else dict(naconmax=150 * nworld, njmax=300)
+    condM = float(np.linalg.cond(_mj_fullM(mujoco, mjm, mjd.qpos))) if mjm.nv else 1.0  # MuJoCo C's M, float64
+    da = mjw.put_data(mjm, mjd, nworld=nworld, **cap)
+    db = mjw.put_data(mjm, mjd, nworld=nworld, **cap)
     for s in range(3):
       mjw.step(m, da)
       mjw.step1(m, db)
+      if s == 0:
+        # between step1 and step2 (nothing in db is written by the check): the factor that step2 will solve with
+        _factor_check(acc, mjw, wp, mujoco, m, db, mjm, mjd, rng, True, "after step1()", xml)
       mjw.step2(m, db)
       acc.evals += 1
       sa, _ = get_full_state(mjw, m, da, mjm)
       sb, _ = get_full_state(mjw, m, db, mjm)
-      if not np.allclose(sa, sb, rtol=1e-5, atol=1e-6):
-        acc.find(f"step1;step2 differs from step at step {s} (integrator {integ}{cone}{jac}; max |d| {np.abs(sa - sb).max():.3g})", "forward.step1/step2", "step12-vs-step", xml=xml, step=s)
+      # factor + solve (step1; step2) and the fused factor-solve (step) round differently: the float32 accelerations (qacc_warmstart is
+      # part of the state; with njmax=0 the solve IS qacc) differ by a few ulp of the LARGEST entry of the world's vector, growing with
+      # cond(M) (observed 3e-7 at cond 1.5e3, 1.4e-6 at cond 1.2e4, both pipelines equally close to MuJoCo C; worst case cond*eps32 =
+      # 6e-8*cond): the elementwise tolerance gets a term 3e-9 * max(cond, 1e3) * (largest state entry of the world)
+      tol = STATE_RTOL * np.abs(sa) + STATE_ATOL + STATE_ROWTOL * max(1.0, condM / 1e3) * np.max(np.abs(sa), axis=1, keepdims=True)
+      RATIO[0] = max(RATIO[0], float(np.max(np.abs(sa - sb) / tol)))
+      if not np.all(np.abs(sa - sb) <= tol):
+        acc.find(f"step1;step2 differs from step at step {s} (integrator {integ}, {solver}, {capacity}{cone}{jac}; max |d| {np.abs(sa - sb).max():.3g}, "
+                 f"{np.max(np.abs(sa - sb) / tol):.3g} x tolerance)", "forward.step1/step2", "step12-vs-step", xml=xml, step=s)
+        break
+      # the accelerations both pipelines computed on the way (same inputs, same kernels up to factor+solve vs fused factor-solve)
+      worst = max((_rel(getattr(da, f).numpy(), getattr(db, f).numpy()), f) for f in ("qacc_smooth", "qacc", "qfrc_constraint"))
+      out_tol = max(OUT_TOL, 2e-8 * condM)
+      RATIO[1] = max(RATIO[1], worst[0] / out_tol)
+      if not worst[0] <= out_tol:
+        acc.find(f"step1;step2 leaves a different d.{worst[1]} than step at step {s} (integrator {integ}, {solver}, {capacity}{cone}{jac}; relative {worst[0]:.3g})",
+                 "forward.step1/step2", "step12-vs-step-outputs", xml=xml, step=s)
         break
     # forward(): state unchanged (except history with delayed sensors), idempotent
-    dc = mjw.put_data(mjm, mjd, nworld=nworld, naconmax=150 * nworld, njmax=300)
+    dc = mjw.put_data(mjm, mjd, nworld=nworld, **cap)
     s0, _ = get_full_state(mjw, m, dc, mjm)
     mjw.forward(m, dc)
     s1, _ = get_full_state(mjw, m, dc, mjm)
-    out1 = (dc.qacc.numpy().copy(), dc.sensordata.numpy().copy(), dc.efc.force.numpy().copy())
+    outs = ("qacc", "qacc_smooth", "sensordata", "M", "qLD", "qLDiagInv")
+    out1 = [getattr(dc, f).numpy().copy() for f in outs] + [dc.efc.force.numpy().copy()]
+    if arm:
+      # forward() factors in fwd_acceleration: the factor it leaves must belong to the complete M as well
+      _factor_check(acc, mjw, wp, mujoco, m, dc, mjm, mjd, rng, True, "after forward()", xml)
     mjw.forward(m, dc)
-    out2 = (dc.qacc.numpy().copy(), dc.sensordata.numpy().copy(), dc.efc.force.numpy().copy())
+    out2 = [getattr(dc, f).numpy().copy() for f in outs] + [dc.efc.force.numpy().copy()]
     acc.evals += 2
     hs = (mujoco.mj_stateSize(mjm, (1 << 4) - 1), mujoco.mj_stateSize(mjm, (1 << 5) - 1))
     a0, a1 = s0.copy(), s1.copy()
@@ -86,20 +206,34 @@ def _run(ctx, ncases):
       acc.find("forward() changed d.history although no sensor has a delay", "forward.forward", "forward-history", xml=xml)
     if not delay and not all(np.array_equal(x, y) for x, y in zip(out1, out2)):
       acc.find("forward() twice gives different results", "forward.forward", "forward-idempotent", xml=xml)
-    acc.distinct.add((c, integ, cone, jac, delay))
-    acc.hit(integ)
-    acc.sample({"integrator": integ, "options": (cone + jac).strip(), "delayed_sensor": delay, "nworld": nworld})
+    # vacuity: is the tendon inertia really in M?  (MuJoCo C, same qpos: M with armature minus M with the armature zeroed)
+    arm_active = False
+    if arm and mjm.ntendon and np.any(mjm.tendon_armature > 0):
+      import copy
+      mjm0 = copy.copy(mjm)
+      mjm0.tendon_armature[:] = 0
+      arm_active = bool(np.abs(_mj_fullM(mujoco, mjm, mjd.qpos) - _mj_fullM(mujoco, mjm0, mjd.qpos)).max() > 1e-3)
+    acc.distinct.add((c, integ, cone, jac, delay, solver, capacity, arm_active))
+    for key in (integ, solver, "data:" + capacity, "tendon" if mjm.ntendon else "no-tendon", "tendon-armature-in-M" if arm_active else "no-tendon-armature",
+                f"armature+{solver}+{capacity}" if arm_active else None, "sparse" if jac else "dense"):
+      if key:
+        acc.hit(key)
+    acc.sample({"integrator": integ, "solver": solver, "data": capacity, "tendon_armature": arm_active, "options": (cone + jac).strip(), "delayed_sensor": delay, "nworld": nworld})
   return acc
 
 
-RULE = ("random trees over a floor with actuators (incl. a filter activation) and sensors (30% with a delay); Euler/implicitfast/implicit, both cones, dense/sparse; 3 steps of step vs step1;step2 "
-        "(state compared, tolerance 1e-5 because factor+solve vs fused factor-solve may round differently); forward() must leave the integration state untouched (history exempt with delayed "
-        "sensors) and be idempotent; distinct = (case, integrator, options, delay)")
+RULE = ("random trees with actuators (incl. a filter activation) and sensors (30% with a delay); Euler/implicitfast/implicit, both cones, dense/sparse; deterministic rotation (period 6) over solver "
+        "Newton/CG x Data capacity (constraint rows allocated over a floor with joint limits / constraint-free model with nconmax=0, njmax=0 where qacc IS the solve with the inertia factor) with, in 5 of 6 "
+        "cases, a spatial (world site - body site) and a fixed tendon with ARMATURE (activity checked: MuJoCo C's M with minus without armature); 3 steps of step vs step1;step2: state (elementwise 1e-5 + "
+        "3e-9*max(cond M,1e3) of the world's largest entry: factor+solve vs fused factor-solve round differently) and qacc_smooth/qacc/qfrc_constraint (2e-4 of the largest entry); between step1 and step2 and "
+        "after forward(): M solve_m(y) = y for random y, with d.M (mul_m) and with MuJoCo C's M, to 2e-4*(|M||x|+|y|); forward() must leave the integration state untouched (history exempt with delayed "
+        "sensors) and be bitwise idempotent (qacc, qacc_smooth, sensordata, M, qLD, qLDiagInv, efc.force); distinct = (case, integrator, options, delay, solver, capacity, armature active)")
 
 
 def correspondence(ctx):
+  RATIO[:] = [0.0, 0.0, 0.0]
   acc = _run(ctx, 40 if ctx.thorough else 12)
-  return result(acc, RULE)
+  return result(acc, RULE, extra={"tolerance_use": dict(zip(("state", "outputs", "factor"), (round(r, 4) for r in RATIO)))})
 
 
 def search(ctx, breaks):
